@@ -154,7 +154,14 @@ def run(chk, which="C17"):
                        "per type: static facts (rep, unit = seconds x Period via the reifier, reduced period of as_chrono_duration) and count-preserving round trips on boundary/random counts; "
                        "sampled ordered pairs: the six comparisons both ways, +, - against chrono's own result on operand pairs where chrono's computation cannot overflow (128-bit oracle); "
                        "implicit acceptance compared with the corresponding quantity for 7 target quantity types; distinct_nontrivial = distinct (kind, instance)")
+    # every duration type must round-trip: as_quantity(d), the conversion back and the acceptance traits have to compile for each of
+    # them (only the *mixed pairs* are subject to the implicit-conversion policy and may legitimately be refused)
+    seen_rej = set()
+    for x in dropped:
+        if x["id"] < 1000 and x["id"] not in seen_rej:
+            seen_rej.add(x["id"])
+            chk.violation(f'C17|roundtrip_rejected|{x["desc"]}', msg=f'as_quantity / conversion back / acceptance traits for {x["desc"]} do not compile: {x["err"]}')
     chk.notes.update({"duration_types": len(durs), "pairs": len(pairs), "rejected_by_library": dropped[:30], "n_rejected": len(dropped)})
-    if len(dropped) > (len(durs) + len(pairs)) * len(cfgs) * 0.5:
+    if len([x for x in dropped if x["id"] >= 1000]) > len(pairs) * len(cfgs) * 0.5:
         chk.fail_inconclusive(f"{len(dropped)} instances rejected by the library")
     return chk
